@@ -210,6 +210,18 @@ PLANS = {
                                              "the regex crate is the trusted base for the regex provider's reference",
                                              "duplicated candidates are ignored (the property speaks of which candidates exist)"],
     },
+    "C11": lambda tier: {
+        "level": "exploration",
+        "stages": [main_stage(60, 300, tier)],
+        "require": ["words_swept_over_all_subsets", "tokenizations_compared", "tokenizations_where_only_partition_is_promised"],
+        "rule": "seeded stacks (system + 0-3 user dictionaries, with/without synonym ids, splits, dictionary-form references); for EVERY word "
+                "of every layer and EVERY one of the 1,024 field subsets S (exhaustive per word): get_word_info_subset(id, S.normalize()) "
+                "read through the public accessors must agree with the full load on every field in S; plus tokenizations with "
+                "set_subset(S)/set_mode(m) in both orders in modes A/B/C: partition always, boundaries + word ids + requested fields equal to "
+                "the full-field analysis when no path-rewrite plugin is configured or S contains surface, POS and normalised form. "
+                "distinct_nontrivial = distinct words whose 1,024 subsets all agreed",
+        "assumptions": COMMON_ASSUMPTIONS + ["the closure InfoSubset::normalize() is applied before the low-level call (as the tokenizer does)"],
+    },
 }
 
 
